@@ -623,6 +623,23 @@ pub fn exec(case: &TreeCase) -> RunOut {
         if let Ok(bytes) = ser_vec(t.as_ref(), 0) {
             out.fps.push(fnv(&bytes));
         }
+        // a clone answers like the original (first construction of every 4th case)
+        if which == 0 && case.qseed % 4 == 0 {
+            if let Ok(c) = catch(|| t.clone_box()) {
+                let mut d2 = Digest::default();
+                sweep(case, &m, c.as_ref(), which, deep, &mut out, &mut d2);
+                out.count("clones_swept", 1);
+            }
+        }
+    }
+    // the default-constructed tree represents the empty sequence: every query answers None
+    if m.n() == 0 {
+        if let Ok(t) = catch(|| crate::ds::default_tree(case.alias, case.ty)) {
+            let mut d2 = Digest::default();
+            sweep(case, &m, t.as_ref(), 99, false, &mut out, &mut d2);
+            digest.u64(d2.0);
+            out.count("default_trees_swept", 1);
+        }
     }
     verif::set_orders(Order::Canonical, Order::Canonical);
     let probes = verif::take_probes();
